@@ -36,6 +36,10 @@ structure Cfg where
   lazyUpdate : Cls → Bool
   cacheValues : Cls → Bool
   ncols : Cls → Nat
+  /-- column codec: `enc` = `from_python` (what is stored / kept pending), `dec` = `to_python` (what the
+      object shows for a stored value).  Identity for IntCol; JSONCol, PickleCol, … have real ones. -/
+  enc : Cls → Col → Val → Val
+  dec : Cls → Col → Val → Val
   /-- column 0 of the class is a `ForeignKey` to the given class with the given cascade policy -/
   fk : Cls → Option (Cls × FkKind)
   /-- connection option `cache=`; no value-level effect (kept so that theorems quantify over it) -/
@@ -61,6 +65,8 @@ inductive Stmt
   | selectCls (cls : Cls)
   /-- `k.select(k.q.fkID == id)` of `destroySelf` over a dependent class -/
   | selectRefs (k : Cls) (cls : Cls) (id : Id)
+  /-- `deleteBy` / `deleteMany`: one DELETE with a WHERE clause -/
+  | deleteWhere (cls : Cls)
   deriving DecidableEq, Repr
 
 structure State where
@@ -110,6 +116,8 @@ inductive Op
   | destroy (h : Hnd) (refs : List RefStep)
   | pickle (h : Hnd) (fail : Bool)
   | drop (h : Hnd)
+  /-- `cls.deleteBy(...)` / `cls.deleteMany(...)`: the rows `ids` match; instances are not touched -/
+  | bulkDelete (cls : Cls) (ids : List Id)
   | oobUpdate (cls : Cls) (id : Id) (c : Col) (v : Val)
   | oobDelete (cls : Cls) (id : Id)
   | oobInsert (cls : Cls) (id : Id) (vals : Pend)
@@ -131,10 +139,11 @@ def passign (c : Col) (v : Val) : Pend → Pend
 /-- `old.update(new)` -/
 def pmerge (new old : Pend) : Pend := new.foldl (fun p kv => passign kv.1 kv.2 p) old
 
-/-- validators over all keyword values: `none` = some value is rejected (`Invalid`) -/
-def validate : List (Col × Inp) → Option Pend
+/-- validators over all keyword values (`from_python`): the database-side values, or `none` = some value is
+    rejected (`Invalid`) -/
+def validate (enc : Col → Val → Val) : List (Col × Inp) → Option Pend
   | [] => some []
-  | (c, .ok v) :: r => (validate r).map (passign c v)
+  | (c, .ok v) :: r => (validate enc r).map (passign c (enc c v))
   | (_, .bad) :: _ => none
 
 def colsOk (n : Nat) (kvs : List (Col × Inp)) : Bool := kvs.all (fun kv => kv.1 < n)
@@ -142,16 +151,18 @@ def colsOk (n : Nat) (kvs : List (Col × Inp)) : Bool := kvs.all (fun kv => kv.1
 /-! ## rows and cached attributes -/
 
 /-- `_SO_selectInit`: one attribute per column of the class -/
-def loadRow (n : Nat) (row : Row) : Col → Option Val := fun c => if c < n then some (row c) else none
+def loadRow (dec : Col → Val → Val) (n : Nat) (row : Row) : Col → Option Val :=
+  fun c => if c < n then some (dec c (row c)) else none
 
 def applyUpd (row : Row) (p : Pend) : Row := fun c =>
   match plookup c p with
   | some v => v
   | none => row c
 
-def cacheAll (cached : Col → Option Val) (p : Pend) : Col → Option Val := fun c =>
+/-- cached attributes overridden by what the object shows for the database-side values `p` -/
+def cacheAll (dec : Col → Val → Val) (cached : Col → Option Val) (p : Pend) : Col → Option Val := fun c =>
   match plookup c p with
-  | some v => some v
+  | some v => some (dec c v)
   | none => cached c
 
 def setCached (cached : Col → Option Val) (c : Col) (v : Val) : Col → Option Val :=
@@ -180,7 +191,7 @@ def sendUpdate (s : State) (o : Inst) (p : Pend) (fail : Bool) : State :=
            log := s.log ++ [.update o.cls o.id p] }
 
 def freshInst (cfg : Cfg) (cls : Cls) (id : Id) (row : Row) : Inst :=
-  { cls := cls, id := id, cached := loadRow (cfg.ncols cls) row, expired := false, dirty := false,
+  { cls := cls, id := id, cached := loadRow (cfg.dec cls) (cfg.ncols cls) row, expired := false, dirty := false,
     pending := [], obsolete := false, inCache := true }
 
 /-- `cache.created` / `cache.put`: the entry of (cls, id) now points to the new instance -/
@@ -197,7 +208,7 @@ def init : State := { db := fun _ _ => none, objs := fun _ => none, updates := 0
 def opCreate (cfg : Cfg) (s : State) (h : Hnd) (cls : Cls) (id : Id) (kvs : List (Col × Inp)) : State × Out :=
   if (s.objs h).isSome then (s, .badHandle) else
   if !colsOk (cfg.ncols cls) kvs then (s, .badCol) else
-  match validate kvs with
+  match validate (cfg.enc cls) kvs with
   | none => (s, .invalid)
   | some p =>
     let row : Row := applyUpd (fun _ => none) p
@@ -226,7 +237,7 @@ def opRefresh (cfg : Cfg) (s : State) (h : Hnd) : State × Out :=
     if o.dirty then (s, .ok) else
     match s.db o.cls o.id with
     | none => (s, .ok)
-    | some row => (setObj s h { o with cached := loadRow (cfg.ncols o.cls) row, expired := false }, .ok)
+    | some row => (setObj s h { o with cached := loadRow (cfg.dec o.cls) (cfg.ncols o.cls) row, expired := false }, .ok)
 
 /-- attribute read: `_SO_loadValue` (cacheValues) or `_SO_getValue` -/
 def opRead (cfg : Cfg) (s : State) (h : Hnd) (c : Col) : State × Out :=
@@ -243,14 +254,14 @@ def opRead (cfg : Cfg) (s : State) (h : Hnd) (c : Col) : State × Out :=
         | none => (setObj s1 h { o with expired := false }, .notFound)
         | some row =>
           -- `_SO_selectInit`, then the pending values are put back over the reloaded ones
-          let cached' := cacheAll (loadRow (cfg.ncols o.cls) row) o.pending
-          (setObj s1 h { o with expired := false, cached := cached' }, .val (applyUpd row o.pending c))
+          let cached' := cacheAll (cfg.dec o.cls) (loadRow (cfg.dec o.cls) (cfg.ncols o.cls) row) o.pending
+          (setObj s1 h { o with expired := false, cached := cached' }, .val (cfg.dec o.cls c (applyUpd row o.pending c)))
     else
       if o.obsolete then (s, .assertion) else
       let s1 := logStmt s (.selectCol o.cls o.id c)
       match s.db o.cls o.id with
       | none => (s1, .assertion)
-      | some row => (s1, .val (row c))
+      | some row => (s1, .val (cfg.dec o.cls c (row c)))
 
 /-- `_SO_setValue` (no listener) -/
 def opSetattr (cfg : Cfg) (s : State) (h : Hnd) (c : Col) (inp : Inp) (fail : Bool) : State × Out :=
@@ -262,12 +273,13 @@ def opSetattr (cfg : Cfg) (s : State) (h : Hnd) (c : Col) (inp : Inp) (fail : Bo
     | .bad => (s, .invalid)
     | .ok v =>
       if cfg.lazyUpdate o.cls then
-        (setObj s h { o with dirty := true, pending := passign c v o.pending,
-                             cached := setCached o.cached c v }, .ok)
+        (setObj s h { o with dirty := true, pending := passign c (cfg.enc o.cls c v) o.pending,
+                             cached := setCached o.cached c (cfg.dec o.cls c (cfg.enc o.cls c v)) }, .ok)
       else
-        let s1 := sendUpdate s o [(c, v)] fail
+        let s1 := sendUpdate s o [(c, cfg.enc o.cls c v)] fail
         if fail then (s1, .dbError) else
-        if cfg.cacheValues o.cls then (setObj s1 h { o with cached := setCached o.cached c v }, .ok)
+        if cfg.cacheValues o.cls then
+          (setObj s1 h { o with cached := setCached o.cached c (cfg.dec o.cls c (cfg.enc o.cls c v)) }, .ok)
         else (s1, .ok)
 
 /-- `set(**kw)` -/
@@ -276,17 +288,17 @@ def opSet (cfg : Cfg) (s : State) (h : Hnd) (kvs : List (Col × Inp)) (fail : Bo
   | none => (s, .badHandle)
   | some o =>
     if !colsOk (cfg.ncols o.cls) kvs then (s, .badCol) else
-    match validate kvs with
+    match validate (cfg.enc o.cls) kvs with
     | none => (s, .invalid)
     | some p =>
       if cfg.lazyUpdate o.cls then
-        (setObj s h { o with cached := cacheAll o.cached p, pending := pmerge p o.pending,
+        (setObj s h { o with cached := cacheAll (cfg.dec o.cls) o.cached p, pending := pmerge p o.pending,
                              dirty := if p.isEmpty then o.dirty else true }, .ok)
       else
         if p.isEmpty then (s, .ok) else
         let s1 := sendUpdate s o p fail
         if fail then (s1, .dbError) else
-        if cfg.cacheValues o.cls then (setObj s1 h { o with cached := cacheAll o.cached p }, .ok)
+        if cfg.cacheValues o.cls then (setObj s1 h { o with cached := cacheAll (cfg.dec o.cls) o.cached p }, .ok)
         else (s1, .ok)
 
 /-- `syncUpdate` -/
@@ -307,7 +319,7 @@ def opReload (cfg : Cfg) (s : State) (h : Hnd) : State × Out :=
     let s1 := logStmt s (.selectRow o.cls o.id)
     match s.db o.cls o.id with
     | none => (s1, .notFound)
-    | some row => (setObj s1 h { o with cached := loadRow (cfg.ncols o.cls) row, expired := false }, .ok)
+    | some row => (setObj s1 h { o with cached := loadRow (cfg.dec o.cls) (cfg.ncols o.cls) row, expired := false }, .ok)
 
 /-- `sync` -/
 def opSync (cfg : Cfg) (s : State) (h : Hnd) (fail : Bool) : State × Out :=
@@ -419,6 +431,8 @@ def step (cfg : Cfg) (s : State) : Op → State × Out
   | .destroy h refs => opDestroyRefs cfg s h refs
   | .pickle h fail => opPickle cfg s h fail
   | .drop h => opDrop s h
+  | .bulkDelete cls ids =>
+    ({ logStmt s (.deleteWhere cls) with db := fun c i => if c = cls ∧ ids.contains i = true then none else s.db c i }, .ok)
   | .oobUpdate cls id c v => ({ s with db := updRow s.db cls id [(c, v)] }, .ok)
   | .oobDelete cls id => ({ s with db := setRowDb s.db cls id none }, .ok)
   | .oobInsert cls id vals =>
